@@ -3,6 +3,8 @@ package main
 import (
 	"fmt"
 	"go/types"
+	"sort"
+	"strings"
 
 	"golang.org/x/tools/go/ssa"
 )
@@ -121,7 +123,27 @@ func (vc *VC) evalModClauses(clauses []Clause, env *Env) []modTarget {
 				out = append(out, modTarget{kind: "range", heap: s.heap(), sort: s, ref: base,
 					lo: app("bvadd", off, scale(lo, es)), hi: app("bvadd", off, scale(hi, es)), what: m.Text})
 			}
+		case IndexE:
+			a, t, ok := env.evalAddr(e)
+			if !ok {
+				env.fail("bad modifies target %s", m.Text)
+			}
+			addCells(a.C[0], a.C[1], t, m.Text)
 		case FieldE:
+			if a, t, ok := env.evalAddr(e); ok && size(t) <= 64 {
+				addCells(a.C[0], a.C[1], t, m.Text)
+				break
+			} else if ok {
+				// large aggregate field (array): a range of cells
+				seen := map[Sort]bool{}
+				for _, srt := range layoutSorts(t) {
+					if !seen[srt] {
+						seen[srt] = true
+						out = append(out, modTarget{kind: "range", heap: srt.heap(), sort: srt, ref: a.C[0], lo: a.C[1], hi: bvAdd(a.C[1], bvLit(64, int64(size(t)))), what: m.Text})
+					}
+				}
+				break
+			}
 			x := env.eval(e.X)
 			pt, ok := x.T.Underlying().(*types.Pointer)
 			if !ok {
@@ -151,6 +173,13 @@ func (vc *VC) evalModClauses(clauses []Clause, env *Env) []modTarget {
 				out = append(out, modTarget{kind: "ghost", heap: e.Fn, ref: env.eval(e.Args[0]).term(), what: m.Text})
 			case "Wout":
 				out = append(out, modTarget{kind: "ghost", heap: "Wout", ref: env.eval(e.Args[0]).term(), what: m.Text})
+			case "map":
+				mv := env.eval(e.Args[0])
+				sh := shapeOf(mv.T)
+				if !sh.ok {
+					env.fail("modifies %s: unsupported map", m.Text)
+				}
+				out = append(out, modTarget{kind: "ghost", heap: sh.dom, ref: mv.C[0], what: m.Text}, modTarget{kind: "ghost", heap: sh.val, ref: mv.C[0], what: m.Text})
 			case "stream": // shorthand: Spos and Sfail of the stream
 				r := env.eval(e).term()
 				out = append(out, modTarget{kind: "ghost", heap: "Spos", ref: r, what: m.Text}, modTarget{kind: "ghost", heap: "Sfail", ref: r, what: m.Text})
@@ -169,9 +198,27 @@ func (vc *VC) evalModClauses(clauses []Clause, env *Env) []modTarget {
 	return out
 }
 
-var ghostMaps = []string{"Spos", "Sfail", "Wout", "Wlen", "Wfail", "Gh"}
+var ghostMaps = func() []string {
+	out := []string{"Spos", "Sfail", "Wout", "Wlen", "Wfail", "Gh", "Fdata", "Flen", "Fpos"}
+	for k := range mapKeys() {
+		out = append(out, k)
+	}
+	sort.Strings(out)
+	return out
+}()
 
 func ghostElemSort(h string) string {
+	if strings.HasPrefix(h, "M") {
+		// row sort of a map component: the element sort of its (Array Ref X)
+		sx := parseSexp(stateSorts[h])
+		return sx.list[2].String()
+	}
+	switch h {
+	case "Fdata":
+		return rowSort(SBV8)
+	case "Flen", "Fpos":
+		return "(_ BitVec 64)"
+	}
 	switch h {
 	case "Spos", "Wlen", "Gh":
 		return "(_ BitVec 64)"
@@ -340,4 +387,16 @@ func (fc *FuncContract) mayAlias(a, b string) bool {
 		}
 	}
 	return false
+}
+
+func layoutSorts(t types.Type) []Sort {
+	leaf := t
+	for {
+		arr, ok := leaf.Underlying().(*types.Array)
+		if !ok {
+			break
+		}
+		leaf = arr.Elem()
+	}
+	return layout(leaf)
 }
